@@ -301,6 +301,34 @@ func cellDerives(p *core.Prog, addr ssa.Value, pred func(ssa.Value) bool, throug
 					return true
 				}
 			}
+			// ... or the field's address is handed to a decoder (&res.respHeaders)
+			for _, f := range p.SrcFuncs {
+				hit := false
+				core.EachInstr(f, func(i ssa.Instruction) {
+					fa2, ok := i.(*ssa.FieldAddr)
+					if !ok || core.AddrField(fa2) != fld || fa2.Referrers() == nil {
+						return
+					}
+					for _, ref := range *fa2.Referrers() {
+						var calls []ssa.Instruction
+						if mi, isMI := ref.(*ssa.MakeInterface); isMI && mi.Referrers() != nil {
+							calls = append(calls, *mi.Referrers()...)
+						} else {
+							calls = append(calls, ref)
+						}
+						for _, c := range calls {
+							if cv, isV := c.(ssa.Value); isV {
+								if _, isCall := c.(ssa.CallInstruction); isCall && pred(cv) {
+									hit = true
+								}
+							}
+						}
+					}
+				})
+				if hit {
+					return true
+				}
+			}
 		}
 		return false
 	}
@@ -450,7 +478,12 @@ func c18RetryState(p *core.Prog, r *core.Report) {
 			core.EachInstr(cl, func(i ssa.Instruction) {
 				if c, isC := i.(ssa.CallInstruction); isC {
 					for _, a := range c.Common().Args {
-						if stripBox(a) == ssa.Value(fv) {
+						x := stripBox(a)
+						if x == ssa.Value(fv) {
+							passed = true
+						}
+						// a field of a captured struct handed to the decoder (&res.respHeaders)
+						if fa, isFA := x.(*ssa.FieldAddr); isFA && fa.X == ssa.Value(fv) {
 							passed = true
 						}
 					}
@@ -579,17 +612,30 @@ func c18Plumbing(p *core.Prog, r *core.Report) {
 	}
 	// ... on every successful return (an empty header map included: the
 	// context may still hold the headers of an earlier call)
+	var work []*ssa.Function
 	for _, spec := range [][3]string{{"thrift", "client", "Call"}, {"json", "Client", "Call"}, {"json", "", "wrapCall"}} {
-		f := p.Func(spec[0], spec[1], spec[2])
-		if f == nil {
+		if f := p.Func(spec[0], spec[1], spec[2]); f != nil {
+			work = append(work, f)
+		}
+	}
+	judged := map[*ssa.Function]bool{}
+	for len(work) > 0 {
+		f := work[0]
+		work = work[1:]
+		if judged[f] {
 			continue
 		}
+		judged[f] = true
+		var delegates []*ssa.Function
 		isNilRet := func(i ssa.Instruction) bool {
 			ret, ok := i.(*ssa.Return)
 			if !ok {
 				return false
 			}
 			rv := core.ReturnValues(ret)
+			if len(rv) == 0 {
+				return false
+			}
 			e := rv[len(rv)-1]
 			if core.IsNilConst(e) {
 				return true
@@ -598,6 +644,13 @@ func c18Plumbing(p *core.Prog, r *core.Report) {
 			// on a path that was not taken because of err != nil) may be nil
 			if core.NeverNil(e, 0) || factsAt(i.Block()).nilCmp(func(v ssa.Value) bool { return v == e }, false) {
 				return false
+			}
+			// `return res.finish(ctx, err)`: a helper of the same package decides; it is judged in its own right
+			if c, isCall := e.(*ssa.Call); isCall {
+				if g := c.Call.StaticCallee(); g != nil && g.Blocks != nil && g != f && pkgOf(g) == pkgOf(f) {
+					delegates = append(delegates, g)
+					return false
+				}
 			}
 			if _, isPhi := e.(*ssa.Phi); isPhi {
 				return false // merged error values: judged on their own returns
@@ -609,6 +662,9 @@ func c18Plumbing(p *core.Prog, r *core.Report) {
 			return is
 		}, nil)
 		r.Check(!res.Found, "C18-R4", fname(f), "response headers are set on the caller's context on every successful return", p.Pos(f.Pos()), "no nil-error return avoids SetResponseHeaders", "a successful call can return without storing its response headers (e.g. when they are empty): the context keeps an earlier call's headers: "+p.TrailString(res))
+		if len(judged) < 8 {
+			work = append(work, delegates...)
+		}
 	}
 	if f := mustFunc(p, r, "thrift", "", "readResponse"); f != nil {
 		// the headers returned are those read from Arg2Reader
@@ -680,7 +736,7 @@ func c18Plumbing(p *core.Prog, r *core.Report) {
 		// headers passed to makeCall derive from ctx.Headers(); SetResponseHeaders receives the cell filled by makeCall
 		okH, okS := false, false
 		pos := p.Pos(f.Pos())
-		for _, g := range core.WithAnon(f) {
+		for _, g := range p.FuncsDeep(f, 1) {
 			for _, c := range core.CallsIn(g, "json.makeCall") {
 				if derives(p, c.Common().Args[1], isCtxHeaders, through, 0, seen()) {
 					okH = true
